@@ -286,7 +286,30 @@ def d2_6(ctx):
     ctx.check(good, ckey(fn, "too-few"), few.ast if few else fn.node, "fewer values than requested elements raise RequestError", "a value list shorter than the requested element count is not rejected")
     cut = any(isinstance(n, ast.Assign) and atom_name(n.targets[0]) == "value" and isinstance(n.value, ast.Subscript) and isinstance(n.value.slice, ast.Slice) and atom_name(n.value.slice.upper) == "value_elements" and n.value.slice.lower is None for n in walk(fn.node))
     arr_call = [c for c in walk(fn.node) if isinstance(c, ast.Call) and attr_path(c.func) == "_type.encode" and len(c.args) == 2]
-    ctx.check(cut and len(arr_call) == 1 and atom_name(arr_call[0].args[1]) == "value_elements", ckey(fn, "truncate"), fn.node, "over-long lists are cut to the requested count and encoded with that count", "over-long value lists are not truncated to the requested element count")
+    # the count handed to the array encoder is in the array's own unit: DWORDs for BOOL arrays (whose values are bools),
+    # the value count otherwise (Array.encode multiplies by the bools per element for bit-string elements, D6.6)
+    count_ok, count_facts = False, {}
+    if len(arr_call) == 1:
+        a = arr_call[0].args[1]
+        if isinstance(a, ast.IfExp) and isinstance(a.test, ast.Compare) and len(a.test.ops) == 1 and {atom_name(a.test.left), atom_name(a.test.comparators[0])} & {"data_type"}:
+            other = a.test.comparators[0] if atom_name(a.test.left) == "data_type" else a.test.left
+            is_dword = ctx.folder.eval(other, fn.module) == "DWORD"
+            eq = isinstance(a.test.ops[0], ast.Eq)
+            dword_arm, other_arm = (a.body, a.orelse) if eq else (a.orelse, a.body)
+            count_facts = {"bool_arrays": atom_name(dword_arm), "others": atom_name(other_arm)}
+            count_ok = is_dword and isinstance(a.test.ops[0], (ast.Eq, ast.NotEq)) and atom_name(dword_arm) == "elements" and atom_name(other_arm) == "value_elements"
+        elif atom_name(a) == "elements":
+            # bool_elements is only ever set for BOOL arrays, so value_elements == elements for every other array
+            pt = ctx.model.func(f"{LX}:LogixDriver._parse_tag_request").node
+            sets = [n for n in walk(pt) if isinstance(n, ast.Assign) and atom_name(n.targets[0]) == "bool_elements" and not (isinstance(n.value, ast.Constant) and n.value.value is None)]
+            from ..astutil import ancestors
+            only_dword = bool(sets) and all(any(isinstance(p_, ast.If) and isinstance(p_.test, ast.Compare) and ctx.folder.eval(p_.test.comparators[0], fn.module) == "DWORD" and isinstance(p_.test.ops[0], ast.Eq) for p_ in ancestors(n)) for n in sets)
+            count_facts = {"count": "elements", "bool_elements_only_for_DWORD": only_dword}
+            count_ok = only_dword
+        else:
+            count_facts = {"count": atom_name(a)}
+    ctx.check(cut and count_ok, ckey(fn, "truncate"), fn.node, "over-long lists are cut to the requested count and encoded with that count (DWORDs for BOOL arrays)",
+              f"over-long value lists are not truncated to the requested element count, or the count passed to the array encoder is not in the array's unit (DWORD count for BOOL arrays, value count otherwise): {count_facts}", **count_facts)
     from ..cfg import handler_catches_all
     wraps = any(isinstance(h, ast.ExceptHandler) and handler_catches_all(h) and any(isinstance(s, ast.Raise) and call_name(s.exc) == "RequestError" for s in h.body) for h in walk(fn.node))
     ctx.check(wraps, ckey(fn, "wrap"), fn.node, "encoding failures become RequestError", "encode_value no longer converts encoding failures into RequestError")
